@@ -9,7 +9,7 @@ afterwards to either side must leave the other side's snapshot unchanged.
 from __future__ import annotations
 
 from .. import gen
-from ..core import CaseTimeout, case_deadline, rng_for, short_tb
+from ..core import CaseTimeout, case_deadline, rng_for, short_tb, note_exc
 
 PROP = "C07"
 LEVEL = "exploration"
@@ -402,7 +402,7 @@ def run_case(case, res):
         res.inconc("case watchdog fired")
         return
     except Exception:
-        bad.append("exception: " + short_tb())
+        note_exc(res, bad, "exception escaped from the library: ")
     if bad:
         res.violation(case, "; ".join(bad[:2])[:2500], n_bad=len(bad))
 
